@@ -44,6 +44,8 @@ ASSUMPTIONS = [
     'truth about the process comes from /proc/<pid>/stat (state, ppid, start time); the harness never calls waitpid on it',
     'wait() is only generated when the child has been told to die (a blocking wait on an immortal child is documented)',
     'delayafterterminate stays at its default 0.1 s so that a signal is always processed before liveness is re-checked',
+    'dropping the last reference must reclaim the object without the cyclic collector only in histories in which no '
+    'exception was raised (an exception traceback legitimately references the object until it is collected)',
 ]
 BUDGET = {'quick': 280, 'thorough': 1500}
 
